@@ -311,7 +311,9 @@ PROPS = {
     'C08': {
         'budget': _merge(_p('batch', 220, 4000), _p('mixed', 60, 1000)),
         'projection': [(r'res:(BXCHG|BSETREL|BRM|BBATCH|BBATCHQ)', None), (r'res:QSCAN', 'op_handle'),
-                       (r'view_(mask|vals|target)', 'batch'), (r'panic_unexpected:(BXCHG|BSETREL|BRM|BBATCH|BBATCHQ)', None)],
+                       (r'view_(mask|vals|target)', 'batch'), (r'panic_unexpected:(BXCHG|BSETREL|BRM|BBATCH|BBATCHQ)', None),
+                       # the query a Q variant returns: Count, EntityAt, Next/Step, the accessors, and scans that panic
+                       (r'(res|panic_unexpected|panic_missing):(QCOUNT|QAT|QNEXT|QSTEP|QENT|QVIEW|QREL|QSCAN)', 'op_batch_query')],
         'chk': [r'twin'],
         'own_ops': {'BXCHG', 'BSETREL', 'BRM', 'BBATCH', 'BBATCHQ'},
         'rule': "seeded histories (profile batch); the model's batch operations are proved/defined as the fold of the single operation, so model agreement = batch equals singles; non-trivial = a batch operation after the first 10 ops",
@@ -357,7 +359,7 @@ PROPS = {
         'projection': [(r'view_vals', None)],
         'own_ops': {'XCHG', 'RM', 'SET'},
         'extra': c14_extra,
-        'rule': "gc_harness: seeded histories over 9 component types holding pointers/slices/maps/strings/arrays of pointers whose referents are reachable only through the component; finalizers audit that live referents are never collected and removed ones are released; three collector regimes (between bursts, GOGC=1, concurrent goroutine)",
+        'rule': "gc_harness: seeded histories over 11 component types holding pointers/slices/maps/strings (with and without a pointer beside them)/arrays of pointers/a 328-byte component with its references at the end, whose referents are reachable only through the component; finalizers audit that live referents are never collected and removed ones are released; three collector regimes (between bursts, GOGC=1, concurrent goroutine)",
     },
     'C15': {
         'budget': _merge(_p('reset', 220, 4000), _p('cache', 40, 500)),
@@ -366,12 +368,12 @@ PROPS = {
         'rule': "seeded histories (profile reset): several Reset cycles with registered (relation) filters, dead targets, retired tables before the reset; every observable after a reset is compared with the model, whose Reset is proved to give a fresh world's behaviour",
     },
     'C16': {
-        'budget': _merge(_p('registry', 160, 3000), _p('lock', 60, 500), _p('mixed', 40, 500)),
-        'projection': [(r'res:REG', None), (r'panic_(missing|unexpected):REG', None),
+        'budget': _merge(_p('registry', 160, 3000), _p('lock', 60, 500), _p('mixed', 40, 500), _p('res', 40, 500)),
+        'projection': [(r'res:(REG|RESREG)', None), (r'panic_(missing|unexpected):(REG|RESREG)', None),
                        (r'view_(mask|vals)', 'many_comps'), (r'panic_unexpected:.*', 'many_comps')],
-        'chk': [r'Component', r'(Has|Get)\((1[6-9]|[2-9]\d|\d{3})\)'],   # wrong answers for IDs beyond the first layout chunk
-        'own_ops': {'REG'},
-        'rule': "seeded histories (profile registry): registrations interleaved with table creation up to MaskTotalBits types of 8 shapes; ComponentInfo/ComponentIDs checked on every registration",
+        'chk': [r'Component', r'ResourceType', r'(Has|Get)\((1[6-9]|[2-9]\d|\d{3})\)'],   # wrong answers for IDs beyond the first layout chunk
+        'own_ops': {'REG', 'RESREG'},
+        'rule': "seeded histories (profiles registry, res): registrations interleaved with table creation up to MaskTotalBits types of 8 shapes; ComponentInfo/ComponentIDs checked on every component registration, ResourceTypeID/ResourceType on every resource registration (resource and component types registered under different numbers)",
     },
     'C17': {
         'budget': _merge(_p('dump', 220, 4000)),
